@@ -114,7 +114,11 @@ func NewTextStyle(style pr.StyleAccessor, ignoreSpacing bool) *TextStyle {
 	out.FontDescription.Style = newFontStyle(style.GetFontStyle())
 	out.FontDescription.Weight = newFontWeight(style.GetFontWeight())
 	out.FontDescription.Stretch = newFontStretch(style.GetFontStretch())
-	out.FontDescription.Size = pr.Fl(style.GetFontSize().Value)
+	if !ignoreSpacing {
+		// [ignoreSpacing] is used by CharacterRatio, which measures with its own font size :
+		// reading the font size here would recurse forever for a font-size in ex or ch units
+		out.FontDescription.Size = pr.Fl(style.GetFontSize().Value)
+	}
 	out.FontDescription.VariationSettings = newFontVariationSettings(style.GetFontVariationSettings())
 
 	out.FontLanguageOverride = newFontLanguageOverrride(style.GetFontLanguageOverride())
